@@ -20,7 +20,7 @@ func init() {
 	registerLeg("c05-opt", "C05", legC05Opt)
 }
 
-var c05OptMasks = []uint32{31, 0, 30, 29, 27, 23, 15}
+var c05OptMasks = []uint32{31, 0, 30, 29, 27, 23, 15, 24}
 
 var c05FamilyOfMask = map[uint32]string{30: "1 auto-atomic", 29: "2 ending backtracking", 27: "4 bump-along", 23: "8 atomic alternation", 15: "16 prefix factoring"}
 
@@ -116,6 +116,17 @@ func c05optCollect(n *syntax.RegexNode, runes map[rune]bool, spans *int) {
 }
 
 func c05optModelIn(g uint32, want, condLook bool, root *syntax.RegexNode) []int64 {
+	return c05optModelInWith(g, want, condLook, c05optModelTail(root))
+}
+
+// the mask-independent part of the input of leg 501 is built once per pattern
+func c05optModelInWith(g uint32, want, condLook bool, tail []int64) []int64 {
+	in := make([]int64, 0, len(tail)+3)
+	in = append(in, int64(g), b2i(want), b2i(condLook))
+	return append(in, tail...)
+}
+
+func c05optModelTail(root *syntax.RegexNode) []int64 {
 	used := map[string]bool{}
 	types := map[int]bool{}
 	enc := c10EncNode(root, used, types)
@@ -127,7 +138,7 @@ func c05optModelIn(g uint32, want, condLook bool, root *syntax.RegexNode) []int6
 		dom = append(dom, r)
 	}
 	sort.Slice(dom, func(i, j int) bool { return dom[i] < dom[j] })
-	in := []int64{int64(g), b2i(want), b2i(condLook), int64(len(dom))}
+	in := []int64{int64(len(dom))}
 	for _, r := range dom {
 		in = append(in, int64(r), b2i(syntax.IsWordChar(r)), b2i(syntax.IsECMAWordChar(r)))
 	}
@@ -166,8 +177,12 @@ func c05optModelIn(g uint32, want, condLook bool, root *syntax.RegexNode) []int6
 
 // input of model leg 502: gate mask, (rune, IsECMAWordChar) pairs, then the input of leg 1001
 func c05optParseIn(g uint32, pr []rune, o syntax.RegexOptions, full bool) []int64 {
+	return append([]int64{int64(g)}, c05optParseTail(pr, o, full)...)
+}
+
+func c05optParseTail(pr []rune, o syntax.RegexOptions, full bool) []int64 {
 	dom := c10Domain(pr)
-	in := []int64{int64(g), int64(len(dom))}
+	in := []int64{int64(len(dom))}
 	for _, r := range dom {
 		in = append(in, int64(r), b2i(syntax.IsECMAWordChar(r)))
 	}
@@ -186,7 +201,7 @@ type c05optEntry struct {
 }
 
 func legC05Opt(c *Ctx) {
-	c.Rule("(1) exact reference: the model of syntax.Parse under a gate mask (coq/Model/FinalOptParse.v = the main loop of Model/Parser.v over the gated reducer of Model/FinalOpt.v, then finalOptimize's passes; model leg 502) must give EXACTLY the real tree compiled under mask g (T, Options, Ch, M, N, Str, CharSet fields, children), g in {31, 0, 30, 29, 27, 23, 15}: findAndMakeLoopsAtomic / processNode / canBeMadeAtomic with the walk to the root, eliminateEndingBacktracking with FindLastExpressionInLoopForAutoAtomic, the bump-along marker, reduceAtomic's alternation trimming / reordering, reduceAlternation's two prefix extractions. (2) the post-pass the theorems are about (Model/FinalOpt.fo_final_optimize, model leg 501) applied to the REAL tree compiled with every family off (mask 31) is compared with the same real tree under g; it must agree except where the gate-31 tree does not carry what the gated parse looked at (counted by class; coverage gate: at most 1% of the compared trees). Patterns: the c05-gates shapes and the shapes of this leg x {none, i, s, m, RightToLeft, ECMAScript}, patterns printed from random ASTs, harvested test patterns, the c10-parse corpus. Side conditions of the theorems are evaluated per tree with all families on (histogram): strict-nb (no \\B stepped over before the end of the expression), strict-bal (no walk through a balancing capture), lite (the mandatory reducers are the identity wherever a gated branch re-reduces). non-trivial = the real tree under g differs from the tree under 31 (distinct by pattern, options, mask)")
+	c.Rule("(1) exact reference: the model of syntax.Parse under a gate mask (coq/Model/FinalOptParse.v = the main loop of Model/Parser.v over the gated reducer of Model/FinalOpt.v, then finalOptimize's passes; model leg 502) must give EXACTLY the real tree compiled under mask g (T, Options, Ch, M, N, Str, CharSet fields, children), g in {31, 0, 30, 29, 27, 23, 15, 24}: findAndMakeLoopsAtomic / processNode / canBeMadeAtomic with the walk to the root, eliminateEndingBacktracking with FindLastExpressionInLoopForAutoAtomic, the bump-along marker, reduceAtomic's alternation trimming / reordering, reduceAlternation's two prefix extractions. (2) the post-pass the theorems are about (Model/FinalOpt.fo_final_optimize, model leg 501) applied to the REAL tree compiled with every family off (mask 31) is compared with the same real tree under g; it must agree except where the gate-31 tree does not carry what the gated parse looked at (counted by class; coverage gate: at most 1% of the compared trees). Patterns: the c05-gates shapes and the shapes of this leg x {none, i, s, m, RightToLeft, ECMAScript}, patterns printed from random ASTs, harvested test patterns, the c10-parse corpus. Side conditions of the theorems are evaluated per tree under mask 24 (the three families of finalOptimize on, the two alternation families off: the masks C05_final_optimize_sound_partial covers) (histogram): strict-nb (no \\B stepped over before the end of the expression), strict-bal (no walk through a balancing capture), lite (the mandatory reducers are the identity wherever a gated branch re-reduces). non-trivial = the real tree under g differs from the tree under 31 (distinct by pattern, options, mask)")
 	type pc struct {
 		pat  string
 		o    syntax.RegexOptions
@@ -211,7 +226,7 @@ func legC05Opt(c *Ctx) {
 		addp(s, 0, "shape")
 		addp(s, shapeOpts[1+i%5], "shape")
 	}
-	for _, p := range genPatterns(c.Rng, c.N(1200, 40000), true) {
+	for _, p := range genPatterns(c.Rng, c.N(1000, 40000), true) {
 		addp(p.pat, syntax.RegexOptions(p.o.bits()), "ast")
 	}
 	for _, h := range harvestedPatterns() {
@@ -245,6 +260,8 @@ func legC05Opt(c *Ctx) {
 		}
 		condLook, condMixed := c05optCondLook(p.pat)
 		pr := []rune(p.pat)
+		tail502 := c05optParseTail(pr, p.o, false)
+		tail501 := c05optModelTail(t31.Root)
 		for _, g := range c05OptMasks {
 			tg, err, pan := c05optParse(p.pat, p.o, g)
 			desc := fmt.Sprintf("pattern %q opts=%#x (%s) gate mask %d", p.pat, int(p.o), p.kind, g)
@@ -266,13 +283,16 @@ func legC05Opt(c *Ctx) {
 				continue
 			}
 			// the all-off mask and unchanged trees are compared for a sample only
-			if !differs && g != 0 && !c.Rng.Chance(c.N(12, 40)) {
+			if !differs && g != 0 && g != 24 && !c.Rng.Chance(c.N(12, 40)) {
+				continue
+			}
+			if g == 24 && !((differs && c.Rng.Chance(c.N(50, 100))) || c.Rng.Chance(4)) {
 				continue
 			}
 			e := &c05optEntry{desc: desc + ": real tree " + strings.ReplaceAll(tg.Dump(), "\n", " / "), key: fmt.Sprintf("%q/%d/%d", p.pat, int(p.o), g),
 				g: g, encg: encg, differs: differs}
-			e.in502 = c05optParseIn(g, pr, p.o, false)
-			e.in501 = c05optModelIn(g, false, condLook, t31.Root)
+			e.in502 = append([]int64{int64(g)}, tail502...)
+			e.in501 = c05optModelInWith(g, false, condLook, tail501)
 			switch {
 			case g&16 == 0 && c05optGroupInAtomic.MatchString(p.pat):
 				e.class = "an atomic group directly around a non-capturing group (prefix factoring on)"
@@ -280,9 +300,9 @@ func legC05Opt(c *Ctx) {
 				e.class = "expression conditionals with and without a lookahead condition (ending-backtracking removal on)"
 			}
 			ents = append(ents, e)
-			if g == 0 && len(flagIns) < c.N(1500, 20000) && ((differs && c.Rng.Chance(c.N(60, 100))) || c.Rng.Chance(5)) {
+			if g == 24 && len(flagIns) < c.N(450, 20000) {
 				flagLegs = append(flagLegs, 501)
-				flagIns = append(flagIns, c05optModelIn(g, true, condLook, t31.Root))
+				flagIns = append(flagIns, c05optModelInWith(g, true, condLook, tail501))
 				flagDesc = append(flagDesc, desc)
 			}
 		}
@@ -368,13 +388,13 @@ func legC05Opt(c *Ctx) {
 			c.Add(&Case{Desc: "c05-opt: model execution failed: " + err.Error(), Direct: "model execution failed"})
 		} else {
 			for i, o := range outs {
-				if len(o) < 6 || o[0] != 0 {
+				if len(o) < 8 || o[0] != 0 {
 					c.Hist("side-conditions: model gave no tree")
 					continue
 				}
-				fl := o[len(o)-5:]
+				fl := o[len(o)-7:]
 				all := true
-				for j, nm := range []string{"strict-nb fails (a \\B stepped over before the end of the expression)", "strict-bal fails (a balancing capture on the way)", "strict-desc fails (walk up out of an atomic group the walk descended into)", "strict-findlast fails (FindLastExpressionInLoopForAutoAtomic found a loop)", "lite fails (a mandatory reducer changes a re-reduced node)"} {
+				for j, nm := range []string{"strict-nb fails (a \\B stepped over before the end of the expression)", "strict-bal fails (a balancing capture on the way)", "strict-desc fails (walk up out of an atomic group the walk descended into)", "strict-findlast fails (FindLastExpressionInLoopForAutoAtomic found a loop)", "lite fails (a mandatory reducer changes a re-reduced node)", "fo_wf fails (the shape facts the theorems assume)", "theorem model differs (strict 15 + lite)"} {
 					if fl[j] == 0 {
 						all = false
 						c.Hist("side-condition " + nm)
